@@ -449,6 +449,34 @@ def check_extra(res, counters):
         if not got.ok or got.value != want:
             fails.append({"sig": f"C18|extra|substitution|{name}", "what": f"a handler substituting the value of a dataset class is not honoured in {name}",
                           "detail": f"{got!r}, expected {want!r}", "case": ("extra",)})
+    # a pipeline object that a longer pipeline was built on: its evaluation is a request of its own, so a handler
+    # that answers for it is honoured when the longer pipeline is evaluated
+    from labrea import Value, pipeline_step
+    from labrea.pipeline import Pipeline
+
+    @pipeline_step
+    def first(x, a=Option("A", 0)):
+        return ("first", x, a)
+
+    @pipeline_step
+    def last(x):
+        return ("last", x)
+
+    inner_pipe = Pipeline() + first + w.fn("f")
+    for name, outer in (("pipeline + step", inner_pipe + last), ("(pipeline + step) + step", (inner_pipe + last) + w.fn("g"))):
+        def stub_pipe(request):
+            if request.evaluatable is inner_pipe:
+                return lambda x: ("INNER-STUB", x)
+            return prev(request)
+
+        plain = observe(w, lambda: (Value(1) >> outer).evaluate({"A": 2}))
+        with runtime.handle(EvaluateRequest, stub_pipe):
+            got = observe(w, lambda: (Value(1) >> outer).evaluate({"A": 2}))
+        res["evaluations"] += 1
+        want = ("last", ("INNER-STUB", 1)) if name == "pipeline + step" else ("g", ("last", ("INNER-STUB", 1)))
+        if not plain.ok or not got.ok or got.value != want:
+            fails.append({"sig": f"C18|extra|substitution|{name}", "what": f"a handler substituting the function a pipeline evaluates to is not honoured when a longer pipeline built on it ({name}) is evaluated",
+                          "detail": f"{got!r}, expected {want!r}; without the handler {plain!r}", "case": ("extra",)})
     return fails
 
 
